@@ -14,20 +14,20 @@ import (
 // Summary is what a `run` writes next to its case files; the runner turns it
 // into the evidence file.
 type Summary struct {
-	Property      string           `json:"property"`
-	Tier          string           `json:"tier"`
-	Seed          int64            `json:"seed"`
-	Evaluations   int              `json:"evaluations"`
-	Distinct      int              `json:"distinct_nontrivial"`
-	Rule          string           `json:"rule"`
-	Exhaustive    bool             `json:"exhaustive"`
-	CoqCases      int              `json:"coq_cases"`
-	Samples       []any            `json:"samples"`
-	Distribution  map[string]int   `json:"distribution"`
-	OracleFails   []OracleFail     `json:"oracle_failures"`
-	Files         []CaseFile       `json:"files"`
-	Known         []KnownHit       `json:"known_hits"`
-	Notes         []string         `json:"notes,omitempty"`
+	Property     string         `json:"property"`
+	Tier         string         `json:"tier"`
+	Seed         int64          `json:"seed"`
+	Evaluations  int            `json:"evaluations"`
+	Distinct     int            `json:"distinct_nontrivial"`
+	Rule         string         `json:"rule"`
+	Exhaustive   bool           `json:"exhaustive"`
+	CoqCases     int            `json:"coq_cases"`
+	Samples      []any          `json:"samples"`
+	Distribution map[string]int `json:"distribution"`
+	OracleFails  []OracleFail   `json:"oracle_failures"`
+	Files        []CaseFile     `json:"files"`
+	Known        []KnownHit     `json:"known_hits"`
+	Notes        []string       `json:"notes,omitempty"`
 }
 
 // OracleFail is a concrete input on which the real code violates the property's
@@ -53,13 +53,13 @@ type CaseFile struct {
 }
 
 type runCfg struct {
-	prop    string
-	tier    string
-	seed    int64
-	out     string
-	repo    string
-	verif   string
-	replay  string
+	prop   string
+	tier   string
+	seed   int64
+	out    string
+	repo   string
+	verif  string
+	replay string
 }
 
 var runners = map[string]func(cfg *runCfg) (*Summary, error){}
